@@ -4,6 +4,8 @@ package main
 // stream `strunit`: the private string helpers through VerifCall.
 
 import (
+	"sync"
+	"sync/atomic"
 	"fmt"
 	"math/rand"
 	"strings"
@@ -143,7 +145,46 @@ func genRender(r *rand.Rand, id string, tier string) string {
 func runRender(payload string) string {
 	v, _ := parseV(strings.Fields(payload))
 	s := BuildStack(v)
-	return "S" + hx(s.String())
+	want := s.String()
+	// the rendering of an unchanging tree does not depend on who else is rendering it (or a part of it) at the same time
+	if len(v.Xs) > 0 {
+		var wg sync.WaitGroup
+		var bad int32
+		subs := []stackage.Stack{s}
+		for i := 0; i < s.Len(); i++ {
+			if x, _ := s.Index(i); x != nil {
+				if sub, ok := stackage.ConvertStack(x); ok {
+					subs = append(subs, sub)
+				}
+			}
+		}
+		wants := make([]string, len(subs))
+		for i, sub := range subs {
+			wants[i] = sub.String()
+		}
+		for g := 0; g < 6; g++ {
+			wg.Add(1)
+			go func(g int) {
+				defer wg.Done()
+				defer func() {
+					if recover() != nil {
+						atomic.AddInt32(&bad, 1)
+					}
+				}()
+				for k := 0; k < 4; k++ {
+					i := (g + k) % len(subs)
+					if subs[i].String() != wants[i] {
+						atomic.AddInt32(&bad, 1)
+					}
+				}
+			}(g)
+		}
+		wg.Wait()
+		if bad > 0 {
+			return "S" + hx(want) + " PARALLEL-RENDERING-DIFFERS"
+		}
+	}
+	return "S" + hx(want)
 }
 
 // strunit: "<fn> <args...>"
